@@ -746,10 +746,10 @@ func TestVerif_C03(t *testing.T) {
 	defer rec.Write(t)
 	base, cleanup := vh.ScratchDir(t, "c03-")
 	defer cleanup()
-	vh.Check(t, "cuts", 12, 10, func(rt *rapid.T) { c03Case(rt, rec, base) })
+	vh.Check(t, "cuts", 12, 5, func(rt *rapid.T) { c03Case(rt, rec, base) })
 	rec2 := vh.NewRecorder("C03", "first_commit", "fault_enumeration", c03FirstRule,
 		"the manifest of the interrupted first commit is taken as observed right after that commit returned: ChunkJournal.Update writes it (flushToBackingManifest) before commitRootHash flushes the journal, and nothing rewrites it in between")
 	defer rec2.Write(t)
-	vh.Check(t, "first_commit", 6, 12, func(rt *rapid.T) { c03FirstCommitCase(rt, rec2, base) })
+	vh.Check(t, "first_commit", 6, 8, func(rt *rapid.T) { c03FirstCommitCase(rt, rec2, base) })
 	_ = strings.Join
 }
